@@ -30,29 +30,29 @@ type Cert struct {
 	CVersion cert.Version
 }
 
-func (d *Cert) Version() cert.Version                  { return d.CVersion }
-func (d *Cert) Name() string                           { return d.CName }
-func (d *Cert) Networks() []netip.Prefix               { return d.CNets }
-func (d *Cert) UnsafeNetworks() []netip.Prefix         { return d.CUnsafe }
-func (d *Cert) Groups() []string                       { return d.CGroups }
-func (d *Cert) IsCA() bool                             { return false }
-func (d *Cert) NotBefore() time.Time                   { return time.Time{} }
-func (d *Cert) NotAfter() time.Time                    { return time.Time{} }
-func (d *Cert) Issuer() string                         { return d.CIssuer }
-func (d *Cert) PublicKey() []byte                      { return nil }
-func (d *Cert) MarshalPublicKeyPEM() []byte            { return nil }
-func (d *Cert) Curve() cert.Curve                      { return cert.Curve_CURVE25519 }
-func (d *Cert) Signature() []byte                      { return nil }
-func (d *Cert) CheckSignature([]byte) bool             { return true }
-func (d *Cert) Fingerprint() (string, error)           { return "fp-" + d.CName, nil }
-func (d *Cert) Expired(time.Time) bool                 { return false }
+func (d *Cert) Version() cert.Version                     { return d.CVersion }
+func (d *Cert) Name() string                              { return d.CName }
+func (d *Cert) Networks() []netip.Prefix                  { return d.CNets }
+func (d *Cert) UnsafeNetworks() []netip.Prefix            { return d.CUnsafe }
+func (d *Cert) Groups() []string                          { return d.CGroups }
+func (d *Cert) IsCA() bool                                { return false }
+func (d *Cert) NotBefore() time.Time                      { return time.Time{} }
+func (d *Cert) NotAfter() time.Time                       { return time.Time{} }
+func (d *Cert) Issuer() string                            { return d.CIssuer }
+func (d *Cert) PublicKey() []byte                         { return nil }
+func (d *Cert) MarshalPublicKeyPEM() []byte               { return nil }
+func (d *Cert) Curve() cert.Curve                         { return cert.Curve_CURVE25519 }
+func (d *Cert) Signature() []byte                         { return nil }
+func (d *Cert) CheckSignature([]byte) bool                { return true }
+func (d *Cert) Fingerprint() (string, error)              { return "fp-" + d.CName, nil }
+func (d *Cert) Expired(time.Time) bool                    { return false }
 func (d *Cert) VerifyPrivateKey(cert.Curve, []byte) error { return nil }
-func (d *Cert) Marshal() ([]byte, error)               { return nil, nil }
-func (d *Cert) MarshalForHandshakes() ([]byte, error)  { return nil, nil }
-func (d *Cert) MarshalPEM() ([]byte, error)            { return nil, nil }
-func (d *Cert) MarshalJSON() ([]byte, error)           { return []byte("{}"), nil }
-func (d *Cert) String() string                         { return d.CName }
-func (d *Cert) Copy() cert.Certificate                 { c := *d; return &c }
+func (d *Cert) Marshal() ([]byte, error)                  { return nil, nil }
+func (d *Cert) MarshalForHandshakes() ([]byte, error)     { return nil, nil }
+func (d *Cert) MarshalPEM() ([]byte, error)               { return nil, nil }
+func (d *Cert) MarshalJSON() ([]byte, error)              { return []byte("{}"), nil }
+func (d *Cert) String() string                            { return d.CName }
+func (d *Cert) Copy() cert.Certificate                    { c := *d; return &c }
 
 func (d *Cert) Cached() *cert.CachedCertificate {
 	inv := map[string]struct{}{}
@@ -124,13 +124,13 @@ func ParseCert(a []string) *Cert {
 
 // Rule is one AddRule call. Cidr/LocalCidr: "", "any" or a prefix in Go syntax.
 type Rule struct {
-	Incoming       bool
-	Proto          uint8
-	Start, End     int32
-	Groups         []string
-	Host           string
+	Incoming        bool
+	Proto           uint8
+	Start, End      int32
+	Groups          []string
+	Host            string
 	Cidr, LocalCidr string
-	CAName, CASha  string
+	CAName, CASha   string
 }
 
 func cidrTok(s string) string {
